@@ -138,6 +138,20 @@ let next_int c = let t = next c in try int_of_string t with _ -> fail "bad int %
 let next_n c = n_of_string (next c)
 let next_z c = cz_of_string (next c)
 let next_hex c = bytes_of_hex (next c)
+
+(* observation token of a value: hex, or ~<len>.<fnv1a-64> above 256 bytes (same as the harness) *)
+let hexv (b : bytes) : string =
+  let s = string_of_bytes b in
+  if String.length s <= 256 then hex_of_string s
+  else begin
+    let h = ref 0xcbf29ce484222325L in
+    String.iter (fun ch -> h := Int64.mul (Int64.logxor !h (Int64.of_int (Char.code ch))) 0x100000001b3L) s;
+    Printf.sprintf "~%d.%016Lx" (String.length s) !h
+  end
+(* a value token read back from a dump: long values stay opaque tokens (compared only for equality) *)
+let next_val c =
+  let t = next c in
+  if String.length t > 0 && t.[0] = '~' then bytes_of_string t else bytes_of_hex t
 let next_id c = id_of_token (next c)
 let expect c s = let t = next c in if t <> s then fail "expected %s, got %s" s t
 
